@@ -25,6 +25,9 @@ RULE = (
     "size + 8 for a fraction of the messages, otherwise every limit within +-3 of each record boundary plus random ones; both "
     "prefer_truncation settings. Distinct by (TSIG, pad, prefer_truncation, outcome, how many RRsets survived mod 8, limit class)."
 )
+RULE += " " + (
+    "Also: OPT records larger than the limit; direct-Renderer drill with reserve/release rounds; more than 64 KiB of records under limits >= 65536; first renderings with the TSIG placeholder."
+)
 ASSUMPTIONS = [
     "reference wire walker and name decoder; RDATA decoded with dns.rdata.from_wire (C02)",
     "maximality of the kept prefix is not demanded; TooBig under prefer_truncation is legitimate only when header+question-less OPT/padding/TSIG alone exceed the limit",
